@@ -201,6 +201,7 @@ class _MaybePartial:
 
 SCENARIOS = ["fresh", "foreign", "readonly", "own", "own+other", "symlink", "hardlink", "sharded", "sharded-collision"]
 FAULTS = ["none", "fs", "tensor-before", "tensor-mid", "callback", "callback-interrupt", "tensor-exit"]
+FAULTS_THOROUGH = FAULTS + ["fs2"]     # two failing effects: the second one hits the error handling / clean-up of the first
 
 
 TMAX = 40
@@ -213,8 +214,10 @@ def make_case(tier, key):
         ranges["T"] = (0, 3)   # all initializers external: the parallel writer needs >= 2 tensors
         for t in range(TMAX):
             ranges[f"s{t}"] = (0, 7)
-    if fault == "fs":
+    if fault in ("fs", "fs2"):
         ranges["fa"] = (0, 60)
+    if fault == "fs2":
+        ranges["gap"] = (1, 6)
     if fault in ("tensor-before", "tensor-mid", "tensor-exit"):
         ranges["tf"] = (0, 3)
     if fault in ("callback", "callback-interrupt"):
@@ -290,8 +293,10 @@ def run_scenario(scn, fault, P):
                 problem(f"destination holds neither its old bytes nor the complete new file: at the boundary before effect {i} ({label.split(' ')[0]}): {cur!r}")
 
     fs.on_boundary = boundary
-    if fault == "fs":
+    if fault in ("fs", "fs2"):
         fs.fail_at = P["fa"]
+    if fault == "fs2":
+        fs.fail_gap = P["gap"]
     cb_calls = []
 
     def callback(tensor, info):
@@ -323,7 +328,8 @@ def run_scenario(scn, fault, P):
         raised_msg = str(e)
     boundary(fs.n_effects, "end of save")
     after = fs.listing()
-    replaced = fs.inode(dest) is not old_ino and fs.inode(dest) is not None and any(l.startswith("replace ") and l.endswith(dest_real) for l in fs.log[: (fs.failed if fs.failed is not None else len(fs.log))]) if not sharded else False
+    applied = [l for i_, l in enumerate(fs.log) if i_ not in (fs.failed, fs.failed2)]     # effects that really took place
+    replaced = fs.inode(dest) is not old_ino and fs.inode(dest) is not None and any(l.startswith("replace ") and l.endswith(dest_real) for l in applied) if not sharded else False
 
     added = {p for p in after if p not in before}
     if raised is not None:
@@ -336,7 +342,7 @@ def run_scenario(scn, fault, P):
         if sharded:
             # shard files completed before the failure may remain; temporary files/directories may not
             left = [p for p in left if "/." in p or ".T" in p]
-        cleanup_failed = fs.failed is not None and fs.log[fs.failed].split(" ")[0] in ("remove", "rmdir")
+        cleanup_failed = (fs.failed is not None and fs.log[fs.failed].split(" ")[0] in ("remove", "rmdir")) or fs.failed2 is not None
         if left and not cleanup_failed:   # when the clean-up's own remove/rmdir is the failing effect, leftovers are unavoidable
             problem(f"temporary files/directories remain after the failed save: {left}")
         if not sharded and old_dest is not None and not replaced and fs.read(dest) != old_dest:
@@ -344,7 +350,7 @@ def run_scenario(scn, fault, P):
         if not sharded and old_dest is None and not replaced and fs.read(dest) is not None and fs.read(dest) != expected_new():
             problem("failed save: a partial new data file was left at the destination")
     else:
-        if fault == "fs" and fs.failed is not None:
+        if fault in ("fs", "fs2") and fs.failed is not None:
             # an injected OSError may be swallowed only by best-effort clean-up
             lab = fs.log[fs.failed]
             if not (lab.startswith("remove ") or lab.startswith("rmdir ")):
@@ -380,7 +386,7 @@ PAR_SCENARIOS = ["par:foreign", "par:own", "par:sharded"]
 def keys_for(tier):
     keys = []
     for s in SCENARIOS + PAR_SCENARIOS:
-        for f in FAULTS:
+        for f in (FAULTS_THOROUGH if tier == "thorough" and not s.startswith("par:") else FAULTS):
             keys.append((s, f))
     return keys
 
@@ -401,7 +407,7 @@ def run(chk, tier):
     )
     chk.bounds = dict(scenarios=SCENARIOS + PAR_SCENARIOS, parallel="par:* scenarios run the same save with max_workers=2 on virtual threads (engine.vthreads), every schedule with <= 1 preemption", faults=FAULTS, tensors="3-4 initializers of 3..9 bytes (in-memory, lazy, external in the destination, external elsewhere)",
                       threshold="symbolic 0..10", failing_effect="symbolic 0..60 (every effect of every path)", shard_limit="symbolic 1..20")
-    chk.not_decided += ["kernel guarantees (rename atomicity, durability / fsync ordering)", "two or more faults in one save (e.g. a failing clean-up after a failing write)",
+    chk.not_decided += ["kernel guarantees (rename atomicity, durability / fsync ordering)", "more than two faults in one save; with two faults (thorough tier: a second failing effect 1..6 effects after the first) left-over temporary files are tolerated, the destination oracles are not relaxed",
                         "the parallel writer beyond max_workers=2 with <= 1 preemption (its synchronisation is C09's subject)"]
     hist.run_cases(chk, "harness.C08", "make_case", keys_for(tier))
     chk.extra["rule"] = "one case per (scenario, fault kind); fault position, threshold and shard limit symbolic; crash oracle at every effect boundary of every path"
